@@ -43,7 +43,9 @@ func script4(tok string, idx int, log *invLog) handler.Handler4 {
 		in := tags4(resp)
 		// fingerprint of the request this handler was given: it must be the request as received
 		fp := fmt.Sprintf("%s%02x%02x", hx(req.TransactionID[:]), byte(req.OpCode), byte(len(req.ClientHWAddr)))
-		defer func() { log.entries = append(log.entries, fmt.Sprintf("%d:%s:%s:%v:%s", idx, in, tags4(out), b2i(stop), fp)) }()
+		defer func() {
+			log.entries = append(log.entries, fmt.Sprintf("%d:%s:%s:%v:%s", idx, in, tags4(out), b2i(stop), fp))
+		}()
 		switch tok[0] {
 		case 'x':
 			return nil, true
@@ -212,7 +214,9 @@ func script6(tok string, idx int, log *invLog) handler.Handler6 {
 			d = inner
 		}
 		fp := fmt.Sprintf("%02x%04x", depth, len(req.ToBytes())&0xffff)
-		defer func() { log.entries = append(log.entries, fmt.Sprintf("%d:%s:%s:%v:%s", idx, in, tags6(out), b2i(stop), fp)) }()
+		defer func() {
+			log.entries = append(log.entries, fmt.Sprintf("%d:%s:%s:%v:%s", idx, in, tags6(out), b2i(stop), fp))
+		}()
 		switch tok[0] {
 		case 'x':
 			return nil, true
